@@ -1,2 +1,5 @@
 #include <stddef.h>
 int sys_csrand_get(void *dst, size_t len);
+void sys_rand_get(void *dst, size_t len);      /* the non-cryptographic generator of the same header */
+#include <stdint.h>
+uint32_t sys_rand32_get(void);
